@@ -93,6 +93,7 @@ def seq_of(r):
 def run_one(tape, tier, prop):
     res = RunResult()
     t = tape
+    res.stats["queue_size_knob_%s" % session.draw_queue_knob(t)] += 1
     spec = gen_world(t)
     wr = scratch.fresh_disk()
     rdir = os.path.join(wr, "Rules", "R")
